@@ -630,8 +630,20 @@ func runPrompting(c *vlib.Ctx) error {
 	}
 	// gated failures with queued waiters: one at a time (the parked goroutines are counted process-wide)
 	gs := gatedScenarios(c.Rand)
+	// A scenario whose waiters never park (or that hangs) costs its full bounded waits; on code
+	// where that happens every time, the remaining scenarios are skipped after a few of them so
+	// that the records already made (and the stress cases above) are still judged in time.
+	overruns := 0
 	for i, gc := range gs {
-		emitGatedCase(c, n+i, gc, gatedCase(gc))
+		if overruns >= 8 {
+			c.AddExtra("gated_skipped_after_overruns", 1)
+			continue
+		}
+		rec := gatedCase(gc)
+		if g, _ := rec["gate"].(map[string]any); rec["hung"] == true || g == nil || g["reached"] != true || g["parked"].(int) < g["want"].(int) {
+			overruns++
+		}
+		emitGatedCase(c, n+i, gc, rec)
 	}
 	c.SetExtra("gated_scenarios", len(gs))
 	// response mode: every token sequence up to the depth, then random prompts
